@@ -25,6 +25,7 @@ const (
 	ASub                   // field idx of a struct value stored at parent
 	AArrElem               // element of an array value stored at parent
 	AStructPtr             // whole struct through a pointer to struct (ref)
+	AArrMem                // array object living in the slice memory M:<elem> at ref (so that it can be sliced)
 )
 
 type Addr struct {
@@ -128,7 +129,7 @@ func (e *Enc) val(fr *Frame, v ssa.Value) Term {
 	if a, ok := fr.addrs[v]; ok {
 		// an address used as a first-class value
 		switch a.kind {
-		case ACell, AStructPtr:
+		case ACell, AStructPtr, AArrMem:
 			return a.ref
 		}
 		e.problem("%s: interior pointer %s used as a value", fr.fn.Name(), v.Name())
@@ -219,7 +220,11 @@ func (e *Enc) globalConst(key string, sort string, t types.Type) Term {
 	if !e.declared["(declare-const "+name+" "+sort+")"] {
 		e.declare(fmt.Sprintf("(declare-const %s %s)", name, sort))
 		x := Term{name, sort}
-		for _, f := range e.typeFacts(x, t, Term{}) {
+		var a0 Term
+		if e.entryState != nil {
+			a0 = e.heapGet(e.entryState, e.allocKey()) // package-level objects exist before the call
+		}
+		for _, f := range e.typeFacts(x, t, a0) {
 			e.declare("(assert " + f.S + ")")
 		}
 	}
@@ -244,6 +249,8 @@ func (e *Enc) load(st *State, a *Addr) Term {
 	case AArrElem:
 		p := e.load(st, a.parent)
 		return sel(p, a.idx, a.sort)
+	case AArrMem:
+		return sel(e.heapGet(st, a.key), a.ref, arraySort(SInt, a.sort))
 	case AStructPtr:
 		u := a.typ.Underlying().(*types.Struct)
 		var parts []string
@@ -286,6 +293,8 @@ func (e *Enc) storeTo(st *State, a *Addr, v Term) {
 	case AArrElem:
 		p := e.load(st, a.parent)
 		e.storeTo(st, a.parent, store(p, a.idx, v))
+	case AArrMem:
+		e.heapSet(st, a.key, store(e.heapGet(st, a.key), a.ref, v))
 	case AStructPtr:
 		u := a.typ.Underlying().(*types.Struct)
 		for i := 0; i < u.NumFields(); i++ {
